@@ -103,7 +103,8 @@ def series(rng, m_lo, m_hi, xcls=None, ycls=None):
     return x, y, {"m": m, "xcls": xc, "ycls": yc}
 
 
-def as_container(rng, a, allow=("array", "list", "int", "strided", "readonly", "series", "tuple")):
+def as_container(rng, a, allow=("array", "list", "int", "strided", "readonly", "series", "tuple", "byteswapped", "reversed_view",
+                                 "array.array")):
     """Return the same values in another container; integer dtype only when values are integral."""
     kind = allow[int(rng.integers(0, len(allow)))]
     a = np.asarray(a, dtype=float)
@@ -126,6 +127,15 @@ def as_container(rng, a, allow=("array", "list", "int", "strided", "readonly", "
         return b, kind
     if kind == "tuple":
         return tuple(float(v) for v in a), kind
+    if kind == "byteswapped":
+        # data received in network byte order: same values, non-native dtype ('>f8' on this machine)
+        return a.astype(a.dtype.newbyteorder()), kind
+    if kind == "reversed_view":
+        # a view with a NEGATIVE stride onto storage that holds the values back to front
+        return a[::-1].copy()[::-1], kind
+    if kind == "array.array":
+        import array
+        return array.array("d", [float(v) for v in a]), kind
     if kind == "series":
         # a pandas column whose index is NOT positional (sorted / filtered frame): s[0], s[-1] are label look-ups
         import pandas as pd
